@@ -3,6 +3,7 @@ CONSTANTS Urls <- UrlsC
           Cfgs <- CfgsC
           RebuildOnlyIfChanged = TRUE
           FirstOfBatch = FALSE
+          PullOnNull = TRUE
           IdentsAccumulate = FALSE
           ForgetIdentRecord = TRUE
           ConfigRebuilds = TRUE
